@@ -64,6 +64,88 @@ func nonNilValue(v ssa.Value) bool {
 	return true
 }
 
+// errIdx: index of the error result of fn (last result of type error or *gqlerror.Error), or -1.
+func errIdx(fn *ssa.Function) int {
+	res := fn.Signature.Results()
+	for i := res.Len() - 1; i >= 0; i-- {
+		t := res.At(i).Type().String()
+		if t == "error" || strings.HasSuffix(t, "gqlerror.Error") {
+			return i
+		}
+	}
+	return -1
+}
+
+// failureStops: every return reachable from block b of fn carries a non-nil error, and — when fn is a helper that the
+// module calls statically — every such call site tests that error and its non-nil edge again only reaches failing returns
+// (followed up the static call chain; a function without static call sites is an entry point called through an interface).
+func (c *Ctx) failureStops(fn *ssa.Function, b *ssa.BasicBlock, fns []*ssa.Function, depth int) (bool, string) {
+	idx := errIdx(topFn(fn))
+	if fn.Parent() != nil {
+		idx = errIdx(fn)
+	}
+	if idx < 0 {
+		return false, "is in a function without an error result"
+	}
+	if ok, why := c.edgeOnlyErrReturns(b, idx); !ok {
+		return false, why
+	}
+	if depth > 3 || fn.Parent() != nil {
+		return true, ""
+	}
+	for _, caller := range fns {
+		for _, call := range an.CallsIn(caller, func(ci ssa.CallInstruction, info an.CalleeInfo) bool { return info.Static == fn }) {
+			vc, isV := call.(*ssa.Call)
+			if !isV {
+				return false, "is in a helper that is started with go/defer at " + c.ipos(call)
+			}
+			tested := false
+			for _, e := range an.CondEdges(caller) {
+				empty, k := an.EmptinessFact(e.Fact, func(v ssa.Value) bool {
+					cc := an.AllExtractOf(v, idx)
+					return cc != nil && cc == ssa.CallInstruction(vc)
+				})
+				if !k || empty {
+					continue
+				}
+				tested = true
+				if ok, why := c.failureStops(caller, e.To, fns, depth+1); !ok {
+					return false, "is reported to " + shortFn(caller) + ", whose failure edge " + why
+				}
+			}
+			if !tested {
+				return false, "is reported to " + shortFn(caller) + " at " + c.ipos(call) + ", which does not test the error"
+			}
+		}
+	}
+	return true, ""
+}
+
+// nonNilAt: a branch condition that holds at instruction at says v (or the pointer v wraps as an interface) is not nil.
+func nonNilAt(at ssa.Instruction, v ssa.Value) bool {
+	cands := []ssa.Value{v}
+	for _, d := range an.Defs(v) {
+		cands = append(cands, d)
+		if mi, ok := d.(*ssa.MakeInterface); ok {
+			cands = append(cands, mi.X)
+			cands = append(cands, an.Defs(mi.X)...)
+		}
+	}
+	for _, f := range an.Facts(at) {
+		if empty, k := an.EmptinessFact(f, func(x ssa.Value) bool {
+			for _, cnd := range cands {
+				if x == cnd || an.SameVar(x, cnd) {
+					return true
+				}
+			}
+			return false
+		}); k && !empty {
+			return true
+		}
+	}
+	return false
+}
+
 // edgeOnlyReachesErrorReturns: every Return reachable from block b returns a non-nil value at result idx.
 func (c *Ctx) edgeOnlyErrReturns(b *ssa.BasicBlock, idx int) (bool, string) {
 	n := 0
@@ -71,7 +153,7 @@ func (c *Ctx) edgeOnlyErrReturns(b *ssa.BasicBlock, idx int) (bool, string) {
 		for _, in := range blk.Instrs {
 			if r, ok := in.(*ssa.Return); ok {
 				n++
-				if idx >= len(r.Results) || !nonNilValue(r.Results[idx]) {
+				if idx >= len(r.Results) || !(nonNilValue(r.Results[idx]) || nonNilAt(r, r.Results[idx])) {
 					return false, "reaches the return at " + c.ipos(r) + " whose error may be nil"
 				}
 			}
@@ -172,7 +254,7 @@ func runC15(c *Ctx) {
 				if !(okx && hx.Call.StaticCallee() == hashFn) && !(oky && hy.Call.StaticCallee() == hashFn) {
 					continue
 				}
-				ok, why := c.edgeOnlyErrReturns(e.To, 0)
+				ok, why := c.failureStops(fn, e.To, fns, 0)
 				c.R.Check(ok, shortFn(topFn(fn))+"/hash-mismatch-edge", c.ipos(e.If), "all returns reachable from the mismatch edge carry a non-nil error", "hash mismatch "+why)
 			}
 		}
@@ -208,7 +290,7 @@ func runC15(c *Ctx) {
 					continue
 				}
 				found = true
-				ok, why := c.edgeOnlyErrReturns(e.To, 0)
+				ok, why := c.failureStops(fn, e.To, fns, 0)
 				c.R.Check(ok, key+"/not-found-edge", c.ipos(e.If), "not-found edge only reaches non-nil error returns", "a hash that is not in the cache "+why+": the request would run with empty query text")
 			}
 			if !found {
@@ -234,12 +316,12 @@ func runC15(c *Ctx) {
 		}
 	}
 
-	c.R.Rule("who-adds", "Cache[string].Add is called (through the interface) only from AutomaticPersistedQuery.MutateOperationParameters", 1)
+	c.R.Rule("who-adds", "Cache[string].Add is called (through the interface) only by methods of extension.AutomaticPersistedQuery (each such site is subject to add-guarded)", 1)
 	for _, fn := range fns {
 		for _, call := range an.CallsIn(fn, func(_ ssa.CallInstruction, ci an.CalleeInfo) bool { return isCacheStringMethod(ci.FullName(), "Add") }) {
 			t := topFn(fn)
-			ok := t.Name() == "MutateOperationParameters" && t.Pkg != nil && t.Pkg.Pkg.Path() == pkgExtension
-			c.R.Check(ok, shortFn(t)+"/adds", c.ipos(call), "the APQ extension", "a second writer of the persisted-query cache: registrations that bypass the hash test")
+			ok := t.Pkg != nil && t.Pkg.Pkg.Path() == pkgExtension && t.Signature.Recv() != nil && an.NamedIs(t.Signature.Recv().Type(), pkgExtension, "AutomaticPersistedQuery")
+			c.R.Check(ok, shortFn(t)+"/adds", c.ipos(call), "the APQ extension", "a writer of the persisted-query cache outside the APQ extension: registrations that bypass the hash test")
 		}
 	}
 }
